@@ -13,7 +13,7 @@ for f in test/test_*.py test/smoke_test.py; do
   esac
   k=0; while [ $k -lt $N ]; do JOBS="$JOBS $f:$k/$N"; k=$((k+1)); done
 done
-echo $JOBS | tr ' ' '\n' | env -u TENSORDICT_VERIF PYTHONPATH="$REPO:$HERE" xargs -P 16 -I{} sh -c \
+cd "$REPO"; echo $JOBS | tr ' ' '\n' | env -u TENSORDICT_VERIF PYTHONPATH="$REPO:$HERE" xargs -P 16 -I{} sh -c \
   'j={}; f=${j%%:*}; sh_=${j##*:}; b=$(basename $f .py)-$(echo $sh_ | tr / _); VERIF_SHARD=$sh_ timeout 3000 /venv/bin/python -m pytest -q -p no:cacheprovider -p shard_plugin --timeout=900 --continue-on-collection-errors --junitxml='"$OUT"'/$b.xml $f > '"$OUT"'/$b.log 2>&1'
 # test_tensordict.py dominates: it is additionally split below if present (handled by pytest-level -k in callers if needed)
 /venv/bin/python - "$OUT" <<'PY'
@@ -33,4 +33,23 @@ print(f"passed {len(passed)} failed {len(failed)} stable_pass {len(stable)} stab
 for m in missing[:40]: print("  NOT PASSED:", m, "(failed)" if m in failed else "(absent/skipped)")
 json.dump({"missing": missing, "failed": sorted(failed)}, open(out + "/summary.json", "w"))
 print("logs in", out)
+# tests of stable_pass that did not pass in the loaded parallel run are retried alone (load-sensitive multiprocessing tests)
+import subprocess, os
+still = []
+for m in missing[:25]:
+    cls, name = m.split("::", 1)
+    parts = cls.split(".")
+    # classname is module path (+ optional class)
+    path = "/".join(parts[:2]) + ".py"
+    nodeid = path + "::" + "::".join(parts[2:] + [name])
+    env = dict(os.environ); env.pop("TENSORDICT_VERIF", None); env.pop("VERIF_SHARD", None)
+    try:
+        r = subprocess.run(["/venv/bin/python", "-m", "pytest", "-q", "-p", "no:cacheprovider", "--timeout=600", nodeid],
+                           cwd=os.getcwd(), env=env, stdout=subprocess.PIPE, stderr=subprocess.STDOUT, text=True, timeout=900)
+        ok = r.returncode == 0
+    except subprocess.TimeoutExpired:
+        ok = False
+    print("  RETRY ALONE:", m, "->", "passed" if ok else "FAILED")
+    if not ok: still.append(m)
+print("FINAL: stable tests not passing even alone:", len(still) + max(0, len(missing) - 25))
 PY
